@@ -22,11 +22,27 @@ TOOLS = ["check-express", "exppp", "exp2cxx", "exp2python"]
 DIAG = re.compile(r"(?:^|\s)(?:(?P<file>[^\s:]+):(?P<line>\d+): )?(?:--)?(?P<kind>ERROR|WARNING) P(?P<l>[EW])(?P<code>\d+)")
 
 
+class HangBudget(Exception):
+    pass
+
+
+HANGS = []      # (tool, schema text) of runs that did not stop within the time limit
+
+
 def run_tool(bdir, tool, exp_path, wdir, opts=()):
     d = os.path.join(wdir, "out-" + tool)
     shutil.rmtree(d, ignore_errors=True)
     os.makedirs(d)
-    rc, out, err = shb([os.path.join(bdir, "bin", tool)] + list(opts) + [exp_path], cwd=d, timeout=120)
+    # the schemas of this check are a few dozen lines: a run takes milliseconds; one that is still going after 40 s hangs
+    rc, out, err = shb([os.path.join(bdir, "bin", tool)] + list(opts) + [exp_path], cwd=d, timeout=40)
+    if rc == 124 and err.endswith(b"TIMEOUT"):
+        try:
+            HANGS.append((tool, open(exp_path, encoding="latin-1").read()))
+        except OSError:
+            HANGS.append((tool, ""))
+        if len(HANGS) >= 3:
+            # do not spend the whole run waiting: three hangs are reported and the check stops
+            raise HangBudget()
     txt = (out + err).decode("latin-1")
     diags = []
     for line in txt.split("\n"):
@@ -53,6 +69,21 @@ def has_cycle(n, sub_of):
 
 def main(tier, seed):
     res = Result(PID, tier, seed)
+    try:
+        return main_body(res, tier, seed)
+    except HangBudget:
+        for (tool, text) in HANGS[:3]:
+            os.makedirs(res.replay_dir, exist_ok=True)
+            path = os.path.join(res.replay_dir, "c04-hang-%d-%s.exp" % (seed, tool))
+            open(path, "w", encoding="latin-1").write(text)
+            res.violation("%s does not stop on a schema of a few lines (no verdict after 40 s); the check ends after three such runs" % tool,
+                          {"input_file": path, "replay": "timeout 40 %s <file>" % tool})
+        res.coverage.setdefault("evaluations", len(HANGS))
+        res.coverage.setdefault("distinct_nontrivial", 0)
+        return res.finish()
+
+
+def main_body(res, tier, seed):
     try:
         translate.run_all(PID)
     except translate.AnchorLost as e:
